@@ -139,7 +139,7 @@ def main(argv=None):
             w = rp['witnesses'][0]
             case = w['case']
             only = '%s:%d' % (case['workload'], case['idx'])
-            results = [run_shard(prop, w.get('tier', a.tier), w.get('seed', a.seed), 0, 1, a.repo, outdir, timeout, only=only)]
+            results = [run_shard(prop, w.get('tier', a.tier), w.get('seed', a.seed), w.get('shard', 0), w.get('nshards', 1), a.repo, outdir, timeout, only=only)]  # (the shard number selects the process history, see props/_primer.py)
             a.no_evidence = True
             a.tier = w.get('tier', a.tier)
         else:
